@@ -150,10 +150,13 @@ def build_cells(tier, backend):
         cells.append((f"agg:CountSeedMul:{ek}", f"{seq}.Aggregate({cnt}, lambda acc, v: acc * v + 1)", "ev", ("any", None)))
         cells.append((f"agg:IntExprSeed:{ek}", f"{seq}.Aggregate({cnt} + 1, lambda acc, v: acc + v)", "ev", ("any", None)))
         cells.append((f"agg:CondAdd:{ek}", f"{seq}.Aggregate(1, lambda acc, v: acc + (v if v > 1 else 1))", "ev", ("any", None)))
-    if tier != "quick":
+    if True:
+        # two-operator expressions: precedence / parenthesisation.  Quick: every operator pair on two operand-kind triples;
+        # thorough: on all 27
         ops2 = ["+", "-", "*", "/", "%", "**"]
+        triples = list(itertools.product(("intm", "doublem", "intlit"), repeat=3)) if tier != "quick" else [("intm", "intm", "intlit"), ("doublem", "intlit", "intm")]
         for o1, o2 in itertools.product(ops2, repeat=2):
-            for a, b, c in itertools.product(("intm", "doublem", "intlit"), repeat=3):
+            for a, b, c in triples:
                 A, B, C = KINDS[a][0], KINDS[b][-1], KINDS[c][0]
                 cells.append((f"bin2:{o1}:{o2}:{a}:{b}:{c}:L", f"(({A} {o1} {B}) {o2} {C})", "obj", ("any", None)))
                 cells.append((f"bin2:{o1}:{o2}:{a}:{b}:{c}:R", f"({A} {o1} ({B} {o2} {C}))", "obj", ("any", None)))
